@@ -510,29 +510,110 @@ func (c *c15) sum(egc, ef, ns, addE *ssa.Function) map[string]roleRef {
 			_ = ad
 		}
 	}
-	if cnt != 1 {
+	// the accumulation may live in a helper of the package that the gate loop calls with (totals, filtered)
+	helperOK := false
+	if cnt == 0 {
+		for _, b := range egc.Blocks {
+			for _, ins := range b.Instrs {
+				hc, ok := ins.(*ssa.Call)
+				if !ok || helperOK {
+					continue
+				}
+				h := hc.Call.StaticCallee()
+				if h == nil || h.Blocks == nil || h.Pkg != egc.Pkg || h == ef {
+					continue
+				}
+				kF := -1
+				for ai, a := range hc.Call.Args {
+					if a == ssa.Value(call) {
+						kF = ai
+					}
+				}
+				if kF < 0 || kF >= len(h.Params) {
+					continue
+				}
+				hfi := GetFnInfo(h)
+				var hst *ssa.Store
+				hn := 0
+				for _, hb := range h.Blocks {
+					for _, hi := range hb.Instrs {
+						if s2, ok := hi.(*ssa.Store); ok {
+							if _, ok := callTo(s2.Val, addE); ok {
+								hn++
+								hst = s2
+							}
+						}
+					}
+				}
+				if hn != 1 {
+					continue
+				}
+				hia, ok := hst.Addr.(*ssa.IndexAddr)
+				if !ok {
+					continue
+				}
+				accP, ok := hia.X.(*ssa.Parameter)
+				if !ok {
+					continue
+				}
+				kA := paramIndex(h, accP)
+				hj := stripCopies(hia.Index)
+				hil := hfi.IvOf[hj]
+				had, _ := callTo(hst.Val, addE)
+				h1, h2 := had.Call.Args[1], had.Call.Args[2]
+				filtP := ssa.Value(h.Params[kF])
+				ssite := P.Pos(hst.Pos())
+				switch {
+				case hil == nil || !fullLoopOver(hil, filtP) || hil.Parent != nil:
+					c.bad(key, desc, "the accumulation loop does not visit every index of the slice evalFiltered returned exactly once", ssite)
+					return roles
+				case !hfi.MustBlock(hst.Block()) || !hfi.MustBlock(hil.Header) || !fi.MustBlock(hc.Block()):
+					c.bad(key, desc, "the accumulation is skipped for some constraint or gate (conditional, continue or early exit)", ssite)
+					return roles
+				case len(fi.LoopsOf[hc.Block().Index]) == 0 || fi.LoopsOf[hc.Block().Index][len(fi.LoopsOf[hc.Block().Index])-1] != loop:
+					c.bad(key, desc, "the accumulating helper is not called directly in the gate loop", P.Pos(hc.Pos()))
+					return roles
+				case !(elemLoad(h1, ssa.Value(accP), hj) && elemLoad(h2, filtP, hj)) && !(elemLoad(h2, ssa.Value(accP), hj) && elemLoad(h1, filtP, hj)):
+					c.bad(key, desc, "the stored value is not AddExtension(constraints[j], filtered[j]) with the index j it is stored at", ssite)
+					return roles
+				}
+				if kA < 0 || kA >= len(hc.Call.Args) {
+					continue
+				}
+				acc = hc.Call.Args[kA]
+				st = hst
+				helperOK = true
+			}
+		}
+	}
+	if cnt != 1 && !helperOK {
 		c.und(key, desc, fmt.Sprintf("%d stores of an AddExtension result in EvaluateGateConstraints (expected one)", cnt))
 		return roles
 	}
 	ssite := P.Pos(st.Pos())
-	ia, ok := st.Addr.(*ssa.IndexAddr)
-	if !ok {
-		c.und(key, desc, "the sum is not stored to a slice element at "+ssite)
-		return roles
+	var il *SLoop
+	var j ssa.Value
+	var a1, a2 ssa.Value
+	if !helperOK {
+		ia, ok := st.Addr.(*ssa.IndexAddr)
+		if !ok {
+			c.und(key, desc, "the sum is not stored to a slice element at "+ssite)
+			return roles
+		}
+		acc = ia.X
+		j = stripCopies(ia.Index)
+		il = fi.IvOf[j]
+		ad, _ := callTo(st.Val, addE)
+		a1, a2 = ad.Call.Args[1], ad.Call.Args[2]
 	}
-	acc = ia.X
-	j := stripCopies(ia.Index)
-	il := fi.IvOf[j]
-	ad, _ := callTo(st.Val, addE)
-	a1, a2 := ad.Call.Args[1], ad.Call.Args[2]
 	switch {
-	case il == nil || !fullLoopOver(il, ssa.Value(call)):
+	case !helperOK && (il == nil || !fullLoopOver(il, ssa.Value(call))):
 		c.bad(key, desc, "the accumulation loop does not visit every index of the slice evalFiltered returned exactly once", ssite)
-	case il.Parent != loop:
+	case !helperOK && il.Parent != loop:
 		c.bad(key, desc, "the accumulation loop is not nested directly in the gate loop", ssite)
-	case !fi.MustBlock(st.Block()) || !fi.MustBlock(il.Header):
+	case !helperOK && (!fi.MustBlock(st.Block()) || !fi.MustBlock(il.Header)):
 		c.bad(key, desc, "the accumulation is skipped for some constraint (conditional, continue or early exit)", ssite)
-	case !(elemLoad(a1, acc, j) && elemLoad(a2, ssa.Value(call), j)) && !(elemLoad(a2, acc, j) && elemLoad(a1, ssa.Value(call), j)):
+	case !helperOK && !(elemLoad(a1, acc, j) && elemLoad(a2, ssa.Value(call), j)) && !(elemLoad(a2, acc, j) && elemLoad(a1, ssa.Value(call), j)):
 		c.bad(key, desc, "the stored value is not AddExtension(constraints[j], filtered[j]) with the index j it is stored at", ssite)
 	default:
 		// acc: make of numGateConstraints, zero-initialised over its full length, returned
@@ -1333,11 +1414,16 @@ func rulesParamRelevance(cx *Ctx, prop string, filter func(name string) bool) []
 			continue
 		}
 		bad1 := ""
+		nFull := 0
 		for _, b := range fn.Blocks {
 			ret, ok := b.Instrs[len(b.Instrs)-1].(*ssa.Return)
 			if !ok || len(ret.Results) == 0 {
 				continue
 			}
+			if enteredOnlyWhenEmpty(b) {
+				continue // `if len(list) == 0 { return f(rest) }`: what the zero-trip loop would have returned
+			}
+			nFull++
 			for _, p := range operands {
 				if !dependsOn(ret.Results[0], p, map[ssa.Value]bool{}) {
 					bad1 = fmt.Sprintf("the value returned at %s does not depend on operand %s", P.Pos(ret.Pos()), p.Name())
@@ -1345,6 +1431,9 @@ func rulesParamRelevance(cx *Ctx, prop string, filter func(name string) bool) []
 			}
 		}
 		_ = name
+		if nFull == 0 && bad1 == "" {
+			bad1 = "every return is taken only for an empty list"
+		}
 		if bad1 != "" {
 			obs = append(obs, bad(key, desc, bad1, P.FnName(fn)))
 		} else {
@@ -1355,4 +1444,48 @@ func rulesParamRelevance(cx *Ctx, prop string, filter func(name string) bool) []
 		obs = append(obs, undecided(prop+"/relevance/floor", "arithmetic gadgets found", "no gadget matched"))
 	}
 	return obs
+}
+
+// enteredOnlyWhenEmpty: block b is entered only through the edge on which a list parameter of the function is empty
+// (`len(p) == 0` true edge, `len(p) != 0` / `len(p) > 0` false edge)
+func enteredOnlyWhenEmpty(b *ssa.BasicBlock) bool {
+	if len(b.Preds) != 1 {
+		return false
+	}
+	p := b.Preds[0]
+	iff, ok := p.Instrs[len(p.Instrs)-1].(*ssa.If)
+	if !ok || len(p.Succs) != 2 || p.Succs[0] == p.Succs[1] {
+		return false
+	}
+	cmp, ok := iff.Cond.(*ssa.BinOp)
+	if !ok {
+		return false
+	}
+	isLenParam := func(v ssa.Value) bool {
+		l, ok := lenOfVal(v)
+		if !ok {
+			return false
+		}
+		_, isP := stripCopies(l).(*ssa.Parameter)
+		return isP
+	}
+	isZero := func(v ssa.Value) bool { k, ok := constInt(v); return ok && k == 0 }
+	onTrue := p.Succs[0] == b
+	switch {
+	case isLenParam(cmp.X) && isZero(cmp.Y):
+		switch cmp.Op {
+		case token.EQL, token.LEQ:
+			return onTrue
+		case token.NEQ, token.GTR:
+			return !onTrue
+		}
+	case isZero(cmp.X) && isLenParam(cmp.Y):
+		switch cmp.Op {
+		case token.EQL, token.GEQ:
+			return onTrue
+		case token.NEQ, token.LSS:
+			return !onTrue
+		}
+	}
+	return false
 }
